@@ -179,7 +179,7 @@ theorem C07_terminates_buffered (hsz : 2 ≤ cfg.size) (hr : Reachable (Buffered
     (Buffered.mu cfg s) s hr (Nat.le_refl _)
 
 theorem C07_returned_ctx_buffered (hr : Reachable (Buffered.sys cfg) s) (h : s.cons = .ret) : s.ctx1 = true := by
-  have := (Buffered.basic hr).ret_term.mp h
+  have := (Buffered.basic hr).ret_term.mp (Or.inr h)
   simp [Buffered.St.ctx1, this]
 
 /-- The code as it is (`fix7 = true`): `nil` ⇒ the downstream stopped by itself or every element was delivered —
@@ -232,8 +232,8 @@ theorem C07_terminates_pipe (hr : Reachable (JsonPipe.sys cfg) s) :
 theorem C07_returned_ctx_pipe (hfix : cfg.fix25 = true) (hr : Reachable (JsonPipe.sys cfg) s) (h : s.t = .ret) :
     s.sctx = true ∧ s.prClosed = true := by
   have hb := JsonPipe.basic hr
-  have := hb.ret_s hfix h
-  exact ⟨by simp [JsonPipe.St.sctx, this], hb.prClosed_iff.mpr (Or.inr h)⟩
+  have := hb.ret_s hfix (Or.inr h)
+  exact ⟨by simp [JsonPipe.St.sctx, this], hb.prClosed_iff.mpr (Or.inr (Or.inr h))⟩
 
 /-- A clean EOF on the read end ⇒ every element was written and read (a cut-short stream ends with an error). -/
 theorem C07_cancel_error_pipe (hr : Reachable (JsonPipe.sys cfg) s) (h : s.pwClosed = some true) :
@@ -244,13 +244,13 @@ theorem C07_cancel_error_pipe (hr : Reachable (JsonPipe.sys cfg) s) (h : s.pwClo
     returns; the stream ctx is NOT cancelled and no library transition is enabled: the writer goroutine stays, blocked
     in a ctx-honouring Emit, for ever. -/
 theorem C07_witness_pipe_leak :
-    ∃ s, Reachable (JsonPipe.sys { n := 1, fix25 := false }) s ∧
+    ∃ s, Reachable (JsonPipe.sys { n := 1, fix25 := false, fixJoin := false }) s ∧
       (s.t == .ret && s.w == .inEmit && !s.sctx &&
-        (JsonPipe.internalLabels s).all (fun l => (JsonPipe.step { n := 1, fix25 := false } s l).isNone)) = true :=
+        (JsonPipe.internalLabels s).all (fun l => (JsonPipe.step { n := 1, fix25 := false, fixJoin := false } s l).isNone)) = true :=
   checkRun_reachable (ls := [.wOpenOk, .wCheck, .rReturn, .tPrClose, .tCancelS]) (by decide)
 
 /-- the same schedule on the code as it is: the stream ctx is cancelled -/
-example : ∃ s, Reachable (JsonPipe.sys { n := 1 }) s ∧ (s.t == .ret && s.w == .inEmit && s.sctx) = true :=
+example : ∃ s, Reachable (JsonPipe.sys { n := 1 }) s ∧ (s.t == .join && s.w == .inEmit && s.sctx) = true :=
   checkRun_reachable (ls := [.wOpenOk, .wCheck, .rReturn, .tPrClose, .tCancelS]) (by decide)
 
 end pipe
